@@ -115,8 +115,14 @@ def fs_search(res, tier, rng, exe):
                 for dp, dn, fn in os.walk(outside): os.chmod(dp, 0o777)
                 os.chmod(os.path.join(outside, "victim.txt"), 0o666); os.chmod(dest, 0o555)
                 def drop(): os.setgid(65534); os.setuid(65534)
+                # (the binary is run from a copy inside the sandbox tree: the build directory need not be reachable for that user)
+                exe_u = os.path.join(work, "cabextract-copy"); shutil.copy(exe, exe_u); os.chmod(exe_u, 0o755)
                 before = snapshot(outside)
-                r = subprocess.run([exe] + [[], ["-q"]][k] + ["-d", dest, cabp], capture_output=True, timeout=30, cwd="/", preexec_fn=drop)
+                try:
+                    r = subprocess.run([exe_u] + [[], ["-q"]][k] + ["-d", dest, cabp], capture_output=True, timeout=30, cwd="/", preexec_fn=drop)
+                except (PermissionError, OSError, subprocess.SubprocessError):
+                    res.count("fs-unremovable-link-not-runnable"); os.chmod(dest, 0o755); shutil.rmtree(work, ignore_errors=True); continue      # no way to run as another user here
+                os.remove(exe_u)
                 after = snapshot(outside); n += 1
                 res.evaluations += 1; res.nontrivial.add(("unremovable-link", k)); res.count("fs-unremovable-link")
                 if before != after:
